@@ -224,6 +224,9 @@ func (e *Exec) deadlock(me *G) {
 		}
 	}
 	if m != nil {
+		if len(desc) > 400 {
+			desc = desc[:400] + " …"
+		}
 		e.w.reportViolation(e, "deadlock", "deadlock", "all goroutines blocked and no pending event:"+desc, m)
 	} else {
 		e.w.noteInconclusive("deadlock path without model")
